@@ -461,6 +461,9 @@ PROPS['C09']['level_text'] = PROPS['C09'].get('level_text', '') + (
     'element\'s own tags, OPTIONAL/DEFAULT skipped, every mandatory member present) and SEQUENCE OF (wire order), constructed '
     'OCTET STRING and BIT STRING in definite and indefinite form (fragments in order, each with its unused-bits count), '
     'BitString.fromOctetString, CHOICE (tagged: inner element; untagged: re-dispatch), NamedTypes lookups.')
+OPEN_N = [(D, 'ber.decoder::ConstructedPayloadDecoderBase.valueDecoder@open-types[any-size]'),
+          (D, 'ber.decoder::ConstructedPayloadDecoderBase.indefLenValueDecoder@open-types[any-size]')]
+PROPS['C18']['contracts'] = PROPS['C18']['contracts'] + OPEN_N
 for _p in list(PROPS):
     NOT_CLAIMED.pop(_p, None)
 
